@@ -6,6 +6,8 @@
 import Anonymongo.Props.Src.EndToEnd
 import Anonymongo.Props.C03
 import Anonymongo.Props.C19
+import Anonymongo.Props.C03b
+import Anonymongo.Props.Src.ParseDepth
 namespace Anonymongo.Src
 open Anonymongo Anonymongo.Go
 
@@ -43,6 +45,57 @@ theorem C19_src (plan : Str → Str → Str) (cal : Callees g plan) (heager : g.
   have hph : isEmail Generated.tables.emailPH = true := by decide +kernel
   have henc : (absCfg g).enc = none := by simp [absCfg, hplain]
   rw [C19_line Generated.tables (absCfg g) henc hfull hns hrepl hph plan E0 hnd]
+
+/-- **C03, bytes in → bytes out, at source level**: with the model's parser as the reader and the model's printer as the writer (both
+    compared with the Go codec byte for byte by the `text` correspondence), without `--redactFieldNames` prefixes, for EVERY line and
+    every setting of the other options: either the reader rejects the line (and the translated `RedactMongoLog` returns that error
+    and nothing else), or the line the tool would print parses back to an entry of the same shape as the entry read -/
+theorem C03_src_bytes (plan : Str → Str → Str) (cal : Callees g plan) (hreader : g.UnmarshalOrdered = parseObj)
+    (heager : g.eagerRedactionPaths = []) (line : Str) (hfuel : 2 * (utf8 line).length < fuel) :
+    (parseObj (utf8 line) = none ∧ RedactMongoLog g Generated.tables fuel line = some ([], true)) ∨
+    (∃ E0 out out2, parseObj (utf8 line) = some E0 ∧ RedactMongoLog g Generated.tables fuel line = some (out, false) ∧
+      parseObj (printObj out) = some out2 ∧ shapeEq (.obj E0) (.obj out2) = true) := by
+  cases hp : parseObj (utf8 line) with
+  | none => exact .inl ⟨rfl, RedactMongoLog_err g Generated.tables fuel line (by rw [hreader]; exact hp)⟩
+  | some E0 =>
+    have hpr := parseObj_printable _ E0 hp
+    rw [printable_iff] at hpr
+    simp only [Bool.and_eq_true] at hpr
+    have hd := parseObj_depth _ E0 hp
+    have hrun := RedactMongoLog_eq_gen g fuel cal.hP plan cal.hplan line E0 (by rw [hreader]; exact hp) hpr.2 (by omega)
+    rw [heager] at hrun
+    obtain ⟨out2, h1, h2⟩ := C03_bytes Generated.tables C03_number_placeholder_valid (absCfg g) plan (utf8 line) E0 hp
+    exact .inr ⟨E0, _, out2, rfl, hrun, h1, h2⟩
+
+/-- **C19, bytes in → bytes out, at source level**: in placeholder mode with the value flags only, for every line the reader
+    accepts: a line whose bytes are the printed output of the first run is accepted by the reader, and the translated
+    `RedactMongoLog` run on it returns an entry that prints to those same bytes -/
+theorem C19_src_bytes (plan : Str → Str → Str) (cal : Callees g plan) (hreader : g.UnmarshalOrdered = parseObj)
+    (heager : g.eagerRedactionPaths = []) (hplain : g.shouldEncrypt = false) (hfull : g.redactedFieldsRegexp = none)
+    (hns : g.redactNamespaces = false) (hrepl : isEmail g.redactedString = false)
+    (line : Str) (E0 : List (Str × J)) (hp : parseObj (utf8 line) = some E0) (hfuel : 2 * (utf8 line).length < fuel) :
+    ∃ out, RedactMongoLog g Generated.tables fuel line = some (out, false) ∧
+      ∀ (line2 : Str) (fuel2 : Nat), utf8 line2 = printObj out → 2 * (utf8 line2).length < fuel2 →
+        ∃ out2, RedactMongoLog g Generated.tables fuel2 line2 = some (out2, false) ∧ printObj out2 = printObj out := by
+  have hpr := parseObj_printable _ E0 hp
+  rw [printable_iff] at hpr
+  simp only [Bool.and_eq_true] at hpr
+  have hd := parseObj_depth _ E0 hp
+  have hrun := RedactMongoLog_eq_gen g fuel cal.hP plan cal.hplan line E0 (by rw [hreader]; exact hp) hpr.2 (by omega)
+  rw [heager] at hrun
+  refine ⟨_, hrun, ?_⟩
+  intro line2 fuel2 h2 hf2
+  have hph : isEmail Generated.tables.emailPH = true := by decide +kernel
+  have henc : (absCfg g).enc = none := by simp [absCfg, hplain]
+  obtain ⟨e2, he2, hsame⟩ := C19_bytes Generated.tables C03_number_placeholder_valid (absCfg g) henc hfull hns hrepl hph plan (utf8 line) E0 hp
+  have hp2 : parseObj (utf8 line2) = some e2 := by rw [h2]; exact he2
+  have hpr2 := parseObj_printable _ e2 hp2
+  rw [printable_iff] at hpr2
+  simp only [Bool.and_eq_true] at hpr2
+  have hd2 := parseObj_depth _ e2 hp2
+  have hrun2 := RedactMongoLog_eq_gen g fuel2 cal.hP plan cal.hplan line2 e2 (by rw [hreader]; exact hp2) hpr2.2 (by omega)
+  rw [heager] at hrun2
+  exact ⟨_, hrun2, hsame⟩
 
 example : ∃ out, RedactMongoLog witness Generated.tables 10 witnessLine = some (out, false) ∧ shapeEq (.obj witnessEntry) (.obj out) = true :=
   C03_src witness 10 redactPlan witness_callees rfl witnessLine witnessEntry witness_parse (by decide +kernel) (by decide +kernel)
